@@ -125,6 +125,15 @@ def rule_state(repo, rep):
                     d = dotted(b)
                     if d:
                         targets.append((m.name, q, d))
+                        # an in-place write through `self.<x>` in a method reaches the class-level container <Cls>.<x> unless the
+                        # constructor gives every instance its own (`self.<x> = ...` in __init__)
+                        if d.startswith("self.") and d.count(".") == 1 and "." in q and not isinstance(n, ast.Assign):
+                            cls_ = q.split(".")[0]
+                            if (m.name, f"{cls_}.{d[5:]}") in stores:
+                                init = m.functions.get(f"{cls_}.__init__")
+                                own = init is not None and any(isinstance(a_, ast.Assign) and any(str(norm(t_)) == d for t_ in a_.targets) for a_ in ast.walk(init))
+                                if not own:
+                                    targets.append((m.name, q, f"{cls_}.{d[5:]}"))
     # aliases: `obj.attr = <store>` makes every later in-place write through `.attr` a write to the store
     alias = {}
     for m in repo.core_modules():
@@ -354,7 +363,42 @@ def rule_random(repo, rep):
 # ------------------------------------------------------------------ c
 
 
+def rule_sort_key_objects(repo, rep):
+    """(c, tie-breaks) a tuple sort key built in a generator must never let the comparison reach the object itself: Tensor / Operation /
+    LiveRange order by per-run ids (uuid, equivalence id). Where the key tuple carries the generator's own element as a bare name, an
+    earlier component must be the position from enumerate(...) of the same generator (total and unique), so the object is never compared."""
+    n = 0
+    for m in repo.core_modules():
+        for q, fn in m.functions.items():
+            for c in walk_no_nested(fn):
+                if not (isinstance(c, ast.Call) and call_name(c) == "sorted" and c.args and isinstance(c.args[0], (ast.GeneratorExp, ast.ListComp)) and not any(k.arg == "key" for k in c.keywords)):
+                    continue
+                g = c.args[0]
+                if not isinstance(g.elt, ast.Tuple) or len(g.generators) != 1:
+                    continue
+                gen = g.generators[0]
+                tgt = gen.target
+                idx_name, obj_names = None, set()
+                if isinstance(gen.iter, ast.Call) and call_name(gen.iter) == "enumerate" and isinstance(tgt, ast.Tuple) and len(tgt.elts) == 2 and all(isinstance(e, ast.Name) for e in tgt.elts):
+                    idx_name, obj_names = tgt.elts[0].id, {tgt.elts[1].id}
+                elif isinstance(tgt, ast.Name):
+                    obj_names = {tgt.id}
+                elif isinstance(tgt, ast.Tuple):
+                    obj_names = {e.id for e in tgt.elts if isinstance(e, ast.Name)}
+                pos_obj = [i for i, e in enumerate(g.elt.elts) if isinstance(e, ast.Name) and e.id in obj_names and e.id != idx_name]
+                if not pos_obj:
+                    continue
+                n += 1
+                pos_idx = [i for i, e in enumerate(g.elt.elts) if isinstance(e, ast.Name) and e.id == idx_name] if idx_name else []
+                ok = bool(pos_idx) and min(pos_idx) < min(pos_obj)
+                rep.check(ok, "C14-c", f"{m.rel}:{q}", f"`{str(norm(c))[:90]}`: a position from enumerate precedes the object in the key tuple",
+                          "ties in the leading components are broken by comparing the objects themselves (Tensor.__lt__ compares per-run ids): two tensors of the same name change places between runs")
+    if n < 2:
+        raise AnalysisError(f"sorted() over key tuples that carry their element: {n} found")
+
+
 def rule_order(repo, rep):
+    rule_sort_key_objects(repo, rep)
     n = 0
     for mname in ("tflite_writer", "npu_serialisation", "tensor_allocation", "live_range", "extract_npu_subgraphs", "pass_packing", "high_level_command_stream_generator", "greedy_allocation",
                   "vela", "architecture_features", "compiler_driver", "model_reader", "scheduler", "cascade_builder", "hillclimb_allocation"):
